@@ -1571,6 +1571,7 @@ class Fn:
                     and isinstance(tgt.slice.operand, ast.Constant) and tgt.slice.operand.value == 1):
                 # xs[-1] = v : the last element replaced (IndexError on an empty list: totalised to appending - the code tests first)
                 nm = tgt.value.id
+                self.own_list(nm)
                 le, lt = env[nm]
                 self.idx_check(f"(List.isEmpty {par(le)})", ast.unparse(tgt))
                 ve = self.coerce(val, env, lt[5:])
@@ -1639,6 +1640,7 @@ class Fn:
             # list.append
             if f and f.endswith(".append") and len(c.args) == 1 and f[:-7] in env and env[f[:-7]][1].startswith("List:"):
                 name = f[:-7]
+                self.own_list(name)
                 e, t = self.expr(c.args[0], env)
                 lname = self.lean_name(name)
                 env2 = dict(env)
@@ -1652,6 +1654,7 @@ class Fn:
                     and env[f[:-7]][1].startswith("List:") and isinstance(c.args[0], ast.BinOp) and isinstance(c.args[0].op, ast.Mult)
                     and isinstance(c.args[0].left, ast.List) and len(c.args[0].left.elts) == 1):
                 name = f[:-7]
+                self.own_list(name)
                 lt = env[name][1]
                 ve = self.coerce(c.args[0].left.elts[0], env, lt[5:])
                 ne, nt = self.expr(c.args[0].right, env)
@@ -1896,6 +1899,12 @@ class Fn:
                 else:
                     self.pending_checks.append(f"(!(P0f.Gen.{name}_safe {args_}))")
                 i = text.find(key, j)
+
+    def own_list(self, name):
+        """in-place updates (`append`, `extend`, `xs[-1] = v`) are read as re-binding the variable - which is only the same thing for a
+        list the function created itself: an argument (or an attribute of one) updated in place is an effect the caller sees"""
+        if name in self.t.get("env", {}) and name not in self.let_bound:
+            raise NotTranslatable(f"in-place update of the argument {name}")
 
     def idx_check(self, out_of_range_test, what):
         """safety mode: a subscript that the translation totalises is only reached in range (IndexError otherwise)"""
